@@ -32,7 +32,7 @@ Single ==
         fids \in {<<1, 2>>, <<3>>, <<2, 5, 4, 1>>}, pts \in {<<1, 3>>, <<4, 0, 2, 1>>}, res \in {"none", "ut1"}, norm \in 0..2, root \in 1..2,
         full \in BOOLEAN, tgt \in {1}}
     \cup {[fsets |-> Sets1, ops |-> Three(Integro(1, n, ipts, res, st, ord, rev))] :
-        n \in {1, 3}, ipts \in {<<0, 1>>, <<2>>, <<0, 1, 4>>}, res \in {"int", "intvec", "intx"}, st \in BOOLEAN, ord \in {"xt", "tx"}, rev \in BOOLEAN}
+        n \in {1, 3}, ipts \in {<<0, 1>>, <<2>>, <<0, 1, 4>>}, res \in {"int", "intvec", "intx", "intdx", "intdt"}, st \in BOOLEAN, ord \in {"xt", "tx"}, rev \in BOOLEAN}
     \cup {[fsets |-> Sets1, ops |-> Three(Ritz(1, n, st, ord))] : n \in {1, 3}, st \in BOOLEAN, ord \in {"xt", "tx"}}
     \cup {[fsets |-> Sets1, ops |-> Three(Param(1, kap))] : kap \in {1, 5}}
 \* ---- histories
